@@ -165,12 +165,28 @@ func solveCtx(pctx context.Context, text string, budgetS int, cross bool) *Solve
 			go func(b backend) { ch <- runBackend(ctx, b, file, budgetS) }(b)
 		}
 		var all []*SolveResult
-		for range backends {
-			r := <-ch
-			all = append(all, r)
-			if !cross && (r.Status == "unsat" || r.Status == "sat") {
-				res = r
-				break
+		var grace <-chan time.Time
+	collect:
+		for len(all) < len(backends) {
+			select {
+			case r := <-ch:
+				all = append(all, r)
+				if r.Status == "unsat" || r.Status == "sat" {
+					if !cross {
+						res = r
+						break collect
+					}
+					if grace == nil {
+						// cross-checking: the other back ends get three times the winner's time (at least 10 s)
+						g := 3 * r.TimeS
+						if g < 10 {
+							g = 10
+						}
+						grace = time.After(time.Duration(g * float64(time.Second)))
+					}
+				}
+			case <-grace:
+				break collect
 			}
 		}
 		cancel()
